@@ -6,15 +6,19 @@ import Mathlib.Tactic.NormNum
   C20 — clock times are consistent across time zones and meridians (PARTIAL).
   Proved over ℝ: the zone offset enters only the Julian Day of local midnight, linearly (Thm C13);
   longitude enters the transit fraction, every hour angle and the parallax hour angle only through
-  (sidereal time + longitude), so moving the site east by x while the three sidereal times drop by
-  x changes none of the six hours.  What remains — the Sun's own motion during the shifted interval
+  (sidereal time + longitude): KERNEL LEMMAS about the formulas - `hours_lon_sid_invariant` edits the
+  sidereal time of the record by hand; no pair of real inputs produces exactly that record (a real
+  15°/1 h move changes the sidereal time by 15.04° and the Sun's coordinates of all three days), and
+  the statement stops at `getHours` (no policy layer, no rounding).  What remains — the Sun's own motion during the shifted interval
   (sidereal time at local midnight changes by 15.04°, not 15°, per hour) — is the 10 s of the
   property and is decided by the falsifier.
 -/
 namespace IPT.C20
 open IPT IPT.AngleLemmas
 
-/-- the zone offset moves the Julian Day of local midnight by exactly −d/24 (Thm C13 `jd_gmt_linear`) -/
+/-- the zone offset moves the Julian Day of local midnight by exactly −d/24 (Thm C13 `jd_gmt_linear`,
+    restated).  That the offset enters NOWHERE else is true by inspection of `prayerTimesDt` (its
+    only use is `JD.new rd loc.gmt`) but is not a theorem here. -/
 theorem gmt_enters_only_jd (dt : Date) (g d : ℝ) (h : C13.GregorianDate dt) :
     jdValue dt (g + d) = jdValue dt g - d / 24 := C13.jd_gmt_linear dt g d h
 
